@@ -92,6 +92,7 @@ def node_failures(sp, dt, order):
 
 
 def check_tree(case):
+    LO.set_container(case.get("ct"))
     r = R()
     sp, dt, order = case["tree"], case["dtype"], case.get("order", "H-first")
     fails, ref = node_failures(sp, dt, order)
@@ -249,6 +250,7 @@ def st_consumer(draw):
 
 
 def check_consumer(case):
+    LO.set_container(case.get("ct"))
     import sigpy as sp_
     r = R()
     sp, dt = case["tree"], case["dtype"]
@@ -359,6 +361,7 @@ def big_failures(sp, dt, pseed):
 
 
 def check_big(case):
+    LO.set_container(case.get("ct"))
     r = R()
     sp, dt = case["tree"], case["dtype"]
     fails = [f for f in big_failures(sp, dt, case["pseed"]) if f != "unbuildable"]
